@@ -4,6 +4,7 @@ package main
 import (
 	"fmt"
 	"sort"
+	"verif/lib/wraps"
 
 	"gopkg.in/typ.v4/slices"
 	"verif/lib/enum"
@@ -121,7 +122,9 @@ func (x *h) Apply(op seqmc.Op) *seqmc.Fail {
 		if i := x.lower(op.A); i < len(x.model) && x.model[i] == op.A {
 			want = i
 		}
-		before := x.contents()
+		// (read off the model, not the object: the call under test must be able to be the FIRST call on
+		// a freshly constructed object - an observer in front of it would hide work the constructor postponed)
+		before := append([]int{}, x.model...)
 		var got int
 		if p, m := enum.Catch(func() { got = x.s.Remove(op.A) }); p {
 			return seqmc.Failf("Remove:panic", "Remove(%d) panicked on %v: %s", op.A, before, m)
@@ -140,7 +143,7 @@ func (x *h) Apply(op seqmc.Op) *seqmc.Fail {
 			return seqmc.Failf("Remove(absent):changed-state", "Remove(%d) returned -1 but changed %v into %v", op.A, before, x.contents())
 		}
 	case "RemoveAt":
-		before := x.contents()
+		before := append([]int{}, x.model...)
 		inb := op.A >= 0 && op.A < len(x.model)
 		p, m := enum.Catch(func() { x.s.RemoveAt(op.A) })
 		if p != !inb {
@@ -306,6 +309,11 @@ func main() {
 	ev.GuardFor("C07")
 	r := ev.Start("C07")
 	defer r.FinishOnPanic()
+	if cases, msg := wraps.Sorted(); msg != "" {
+		r.Report(ev.Violation{Sig: "family|wrap", Msg: msg, Replay: map[string]any{"family": "wrap"}})
+	} else {
+		r.Set("wrap_family_cases", cases)
+	}
 	n := ev.Pick(r, 5, 7)
 	initLen := ev.Pick(r, 3, 4)
 	var inits [][]int
@@ -541,3 +549,7 @@ func bigSorted(ord order, n, mod int, kind string, calls *int) string {
 	}
 	return check("at the end")
 }
+
+// ModelKey is the layout-independent state key (see seqmc.ModelKeyer).
+func (x *h) ModelKey() string  { return fmt.Sprint(x.ord, x.model) }
+func (x *hk) ModelKey() string { return fmt.Sprint(x.model, x.next) }
